@@ -80,9 +80,9 @@ func TestMain(m *testing.M) {
 		evid.Spec{Name: "TestPropRandomFaults", Kind: "rapid", Quick: 560, Thorough: 24000, QuickShards: 8, ThoroughShards: 16, TimeoutS: 3000},
 		evid.Spec{Name: "TestPropCommands", Kind: "rapid", Quick: 160, Thorough: 4000, QuickShards: 8, ThoroughShards: 16, TimeoutS: 3000},
 		evid.Spec{Name: "TestEnumErrno", Kind: "plain", QuickShards: 8, ThoroughShards: 16, TimeoutS: 3000},
-		evid.Spec{Name: "TestPropRealFiles", Kind: "rapid", Quick: 320, Thorough: 6000, QuickShards: 8, ThoroughShards: 16, TimeoutS: 3000},
-		evid.Spec{Name: "TestPropRealPipes", Kind: "rapid", Quick: 160, Thorough: 3000, QuickShards: 8, ThoroughShards: 16, TimeoutS: 3000},
-		evid.Spec{Name: "TestPropCommandsReal", Kind: "rapid", Quick: 160, Thorough: 2400, QuickShards: 8, ThoroughShards: 16, TimeoutS: 3000},
+		evid.Spec{Name: "TestPropRealFiles", Kind: "rapid", Quick: 320, Thorough: 4000, QuickShards: 8, ThoroughShards: 16, TimeoutS: 3000},
+		evid.Spec{Name: "TestPropRealPipes", Kind: "rapid", Quick: 160, Thorough: 2000, QuickShards: 8, ThoroughShards: 16, TimeoutS: 3000},
+		evid.Spec{Name: "TestPropCommandsReal", Kind: "rapid", Quick: 160, Thorough: 1600, QuickShards: 8, ThoroughShards: 16, TimeoutS: 3000},
 	)
 	evid.Helpers("faultcmd")
 	evid.Commands("obiconvert", "obicsv")
